@@ -119,3 +119,6 @@ def shrink_candidates(ops):
         canon.append(q)
     add(canon, oracle, sched)
     return cands
+
+# the queue refinement theorems C09 relies on (goring ring buffer, mpsc) and their correspondence
+ALSO = ["C09ring"]
